@@ -35,7 +35,8 @@ def run(chk):
         seed = r.randint(0, 10 ** 6)
         ubm, su = fa.gen_ubm(r, C=2, D=2)
         stats = fa.gen_stats(r, ubm, 6)
-        y = np.array([0, 1, 2, 0, 1, 2])
+        # classes of unequal size whose ids do not first appear in ascending order
+        y = np.array([[1, 0, 2, 0, 0, 2], [0, 1, 2, 0, 1, 2], [2, 2, 0, 1, 0, 0]][rd % 3])
         Xw = g.normal(size=(12, 2)) @ np.array([[2.0, 0.3], [0.1, 1.0]]) + 1
         yw = np.array([0, 1, 2] * 4)
         ctx = {"X": hexlist(X), "seed": seed, "round": rd}
@@ -72,6 +73,25 @@ def run(chk):
                 if not same(out, ref[name]):
                     chk.fail("%s with the same data, configuration and random_state gives a different result after the global NumPy generator "
                              "was perturbed / other estimators were trained" % name, dict(ctx, trainer=name, history=order))
+        # ---- the same k-means OBJECT trained again (k-means has no warm start: every fit initialises from its integer seed), and one
+        #      k-means trainer object shared by two GMM fits
+        for how in ("k-means||", "random"):
+            km = KMeansMachine(K, init_method=how, random_state=seed, max_iter=2)
+            c1 = np.array(km.fit(X).centroids_)
+            c2 = np.array(km.fit(X).centroids_)
+            chk.count(1, key=("refit-same-object", how))
+            if not same(c1, c2):
+                chk.fail("fitting the same KMeansMachine object (init %r, integer random_state) twice on the same data gives different centroids" % how,
+                         dict(ctx, init_method=how))
+        shared = KMeansMachine(K, random_state=seed, max_iter=2)
+
+        def gfit():
+            m_ = GMMMachine(K, k_means_trainer=shared, random_state=seed, max_fitting_steps=1, update_variances=True, update_weights=True).fit(X)
+            return np.concatenate([m_.means.ravel(), m_.variances.ravel(), m_.weights])
+        g1, g2 = gfit(), gfit()
+        chk.count(1, key=("shared-kmeans-trainer",))
+        if not same(g1, g2):
+            chk.fail("two GMMs initialised through the same k-means trainer object (integer random_state) differ: the trainer carries state from the first fit", ctx)
         # ---- sample order (explicit initialisation where the initialiser itself is not under test)
         perm = g.permutation(len(X))
         k1, _, _ = kt.run_kfit(init, X, None, cap=3)
@@ -87,7 +107,8 @@ def run(chk):
         gt.run_fit(m1, Xg)
         gt.run_fit(m2, Xg[pg])
         chk.count(1, key=("perm", "GMM"))
-        if not (close(m1.means, m2.means) and close(m1.variances, m2.variances) and close(m1.weights, m2.weights)):
+        # (a collapsed variance makes the run rounding-dominated: conditioning policy of DESIGN 9.5)
+        if gt.well_conditioned(m1, Xg) and not (close(m1.means, m2.means) and close(m1.variances, m2.variances) and close(m1.weights, m2.weights)):
             chk.fail("GMM training depends on the order of the samples", {"X": hexlist(Xg), "perm": [int(a) for a in pg]})
         # ISV / JFA: sample order and class-id permutations
         ps = g.permutation(len(stats))
